@@ -316,6 +316,16 @@ def fit_case(spec):
             out["base"]["index"] = [int(t.value) for t in pr.index[pr["predicted"].notna() & pr["temperature"].notna()]]
         pr2 = model.predict(rd, ignore_disqualification=True)
         out["year2"] = _rows(pr2, spec, obs_col=False)
+        # reload stage: the model restored from its own document must recover the building just as well
+        out["reload"] = {}
+        for how in ("json", "dict"):
+            try:
+                restored = type(model).from_json(model.to_json()) if how == "json" else type(model).from_dict(model.to_dict())
+                rb = restored.predict(bd, ignore_disqualification=True)
+                r2 = restored.predict(rd, ignore_disqualification=True)
+                out["reload"][how] = {"base": _rows(rb, spec), "year2": _rows(r2, spec, obs_col=False)}
+            except Exception as e:  # noqa
+                out["reload"][how] = {"exception": "%s: %s" % (type(e).__name__, e)}
         # the 7-vector full_model is called with, per stored sub-model (as DailyModel._predict_submodel builds it)
         from opendsm.eemeter.models.daily.base_models.full_model import get_full_model_x
         from opendsm.eemeter.models.daily.utilities.base_model import get_smooth_coeffs
